@@ -8,6 +8,10 @@
            "uid":nat?,"tty":nat?,"users":[[uid,hex],…]?,"ttys":[[nr,hex],…]?}
           F = {"data":hex} | {"err":"ENOENT|ESRCH|EACCES"},  L = {"target":hex} | {"err":…}
           kind = "absent"|"denied"|"dir"|"file"|"filex"   (paths not listed are absent)
+        | {"op":"many","call":"cmdline|environ","zombie":bool,"blocks":[hex,…]}
+        the stateless calls on many file contents at once (exhaustive small enumerations): for each block the
+        world is a live/zombie process whose cmdline resp. environ file holds exactly these bytes
+        → {"many":[{"model": out, "spec": out | null}, …]}
    out: {"model": out, "spec": out | null}
    out: {"kind":"ok","args":[hex…]} | {"kind":"ok","dict":[[hex,hex]…]} | {"kind":"ok","str":hex}
         | {"kind":"ok","opt":hex|null}
@@ -110,6 +114,19 @@ def handle (d : DSt) (j : Json) : R (DSt × Json) := do
   let op ← strF j "op"
   if op == "reset" then
     return (⟨St.init, []⟩, ok (Json.str "reset"))
+  if op == "many" then
+    let c ← strF j "call" >>= parseCall
+    if c != Call.cmdline && c != Call.environ then
+      throw "op many: call must be cmdline or environ"
+    let z ← boolF j "zombie"
+    let blocks ← listF asBytes j "blocks"
+    let base : World :=
+      { dirExists := true, zombie := z, comm := [112], cmdline := .data [], environ := .data [],
+        exe := .err .enoent, cwd := .err .enoent, fs := fun _ => .absent }
+    let one (b : Bytes) : Json :=
+      let w : World := if c == Call.cmdline then { base with cmdline := .data b } else { base with environ := .data b }
+      jObj [("model", jOut (step cfg St.init w c).2), ("spec", jOpt jOut (Spec.call [] w c))]
+    return (d, jObj [("many", jList one blocks)])
   if op != "step" then
     throw s!"unknown op {op}"
   let c ← strF j "call" >>= parseCall
